@@ -17,15 +17,19 @@ TECHNIQUE = ("Coq proof (SQLite4 varint header, adaptive representations, blob t
 LEVEL_TEXT = ("Proof (F/P): the length header round-trips for every N < 2^64 and its first byte separates the two representations; "
               "adaptive values round-trip; reading a blob tree back is the concatenation of its leaves = the input for every byte string, "
               "every split, chunk size, fan-out and number of levels; comparing adaptive values is proved to be the byte order of the "
-              "contents, whichever representation either side uses, for contents that fit one chunk (every value that can be inline at all). "
-              "Partial: for longer contents the faithful model of the chunk differ REFUTES order-correctness (values in different tree-height "
-              "classes that share their first chunk compare equal); SQL-level behaviour rests on the correspondence.")
+              "contents, independent of the representation of either side, for ALL contents outside the class of the known finding "
+              "(cmp_safe: two trees of the same height >= 1 are compared leaf by leaf — first_diff_chunks — and a side that is inline or a "
+              "single leaf is compared with the first leaf of the other, which suffices when it cannot extend past it); the unrestricted "
+              "statement is refuted (different heights / leaf root sharing the first chunk compare equal). oracle_on_model: the executable "
+              "statement holds of the model on every well-formed input outside that class. Partial: SQL-level behaviour (ORDER BY, DISTINCT, "
+              "GROUP BY, joins, unique keys, table hashes) rests on the correspondence.")
 LEVEL_NOTE = ("Trusted: Coq kernel, translator (chunk size, address length), Go harness + Python glue. Modelled, not verified: the "
               "content-addressed store (oracle address -> content; equal addresses = equal contents), flatbuffer node serialisation, "
               "go-mysql-server's executor (ORDER BY / DISTINCT / GROUP BY / joins are checked against the declarative spec on generated "
               "values, not modelled), JSON documents (only the string member is compared), collations other than the binary one.")
-THEOREMS = ["vi_roundtrip", "vi_first_byte_nonzero", "ad_roundtrip", "blob_roundtrip", "blob_tree_roundtrip", "compare_adaptive_small",
-            "compare_adaptive_repr_indep", "compare_adaptive_order_refuted"]
+THEOREMS = ["vi_roundtrip", "vi_first_byte_nonzero", "ad_roundtrip", "blob_roundtrip", "blob_tree_roundtrip", "blob_forest_single_root", "first_diff_chunks",
+            "compare_adaptive_correct", "compare_adaptive_repr_indep_general", "compare_adaptive_same_height", "compare_adaptive_small",
+            "compare_adaptive_repr_indep", "oracle_on_model", "compare_adaptive_order_refuted"]
 REFUTED = ["compare_adaptive_order_refuted"]
 RULE = ("store-level cases: pairs of byte strings given by (length, pattern, point mutations) with lengths around 0/20/21, the inline "
         "threshold (target-1, target), the chunk size (3999..4001, 8000), the fan-out boundary (799999..800001) and random ones, the second "
@@ -34,7 +38,7 @@ RULE = ("store-level cases: pairs of byte strings given by (length, pattern, poi
 ASSUMPTIONS = ["TEXT/JSON contents are ASCII letters and digits (binary collation = byte order)",
                "SQL tables use the default 2048-byte tuple length target; the out-of-band table forces the value out with 8 neighbours of min(len-1, 1000) bytes"]
 REQUIRED_TAGS = ["api", "sql", "inline-possible", "out-only", "single-chunk", "multi-chunk", "height-differs", "equal-values", "prefix-pair",
-                 "sql-text", "sql-blob", "sql-json", "sql-forced-out", "sql-large"]
+                 "sql-text", "sql-blob", "sql-json", "sql-forced-out", "sql-large", "sql-threshold", "sql-multi-chunk"]
 
 KEY_CMP = "nodeStore.CompareAdaptive:first-chunk-only"
 KEY_CNT = "count-distinct:out-of-band-unhashable"
@@ -131,9 +135,28 @@ FIXED = [
 ]
 
 
+def threshold_sql_cases(rng):
+    """Sizes just below / at / above the inline threshold (2047 = largest inline value), the chunk size and a multi-chunk value,
+    in each column type, each value with an equal twin and a twin differing in its last byte."""
+    out = []
+    for ty in (0, 1, 2):
+        for sizes in ([2046, 2047, 2048], [3999, 4000, 4001], [2047, 8000, 12001]):
+            vals = []
+            for n in sizes:
+                pat = [rng.choice(ALNUM) for _ in range(3)]
+                vals.append({"n": n, "pat": pat, "muts": []})
+            vals.append({"n": sizes[1], "pat": list(vals[1]["pat"]), "muts": []})
+            vals.append({"n": sizes[1], "pat": list(vals[1]["pat"]), "muts": [[sizes[1] - 1, 45 if ty == 1 else 48]]})
+            # same prefix, one byte longer / shorter than the middle value (prefix pairs across the boundary)
+            vals.append({"n": sizes[1] + 1, "pat": list(vals[1]["pat"]), "muts": []})
+            out.append({"kind": "sql", "sqlty": ty, "vals": vals, "prefix": rng.choice([10, 64, 768]), "target": 2048, "threshold": True})
+    return out
+
+
 def gen_cases(rng, tier):
     quick = tier == "quick"
     cases = [dict(c) for c in FIXED]
+    cases += threshold_sql_cases(rng)
     n_api, n_sql = (110, 14) if quick else (4000, 400)
     if quick:
         cases.append({"kind": "api", "target": 2048, "x": {"n": 799999, "pat": [97], "muts": []}, "y": {"n": 800000, "pat": [97], "muts": []}})
@@ -172,9 +195,13 @@ def coq_case(case, out):
     inp = "ISql {| s_kind := %d; s_vals := %s; s_prefix := %d%%nat |}" % (case["sqlty"], cq_list(cq_spec(v) for v in case["vals"]), case["prefix"])
     if s is None:
         return "(%s, OBad)" % inp
-    obs = ("OSql {| so_read_in := %s; so_read_out := %s; so_order_in := %s; so_order_out := %s; so_distinct_in := %d; so_distinct_out := %d; "
+    obs = ("OSql {| so_read_in := %s; so_read_out := %s; so_read_sel := %s; so_read_upd := %s; so_order_in := %s; so_order_out := %s; "
+           "so_order_sel := %s; so_order_upd := %s; so_distinct_sel := %d; so_distinct_upd := %d; so_json_full := %s; "
+           "so_distinct_in := %d; so_distinct_out := %d; "
            "so_groups_in := %d; so_groups_out := %d; so_join := %d; so_unique := %s; so_hash_same := %s |}") % (
-        cq_bool(s["read_in"]), cq_bool(s["read_out"]), cq_nlist(s["order_in"] or []), cq_nlist(s["order_out"] or []), s["distinct_in"], s["distinct_out"],
+        cq_bool(s["read_in"]), cq_bool(s["read_out"]), cq_bool(s["read_sel"]), cq_bool(s["read_upd"]),
+        cq_nlist(s["order_in"] or []), cq_nlist(s["order_out"] or []), cq_nlist(s["order_sel"] or []), cq_nlist(s["order_upd"] or []),
+        s["distinct_sel"], s["distinct_upd"], cq_bool(s["json_full"]), s["distinct_in"], s["distinct_out"],
         s["groups_in"], s["groups_out"], s["join"], cq_list(cq_bool(b) for b in (s["unique"] or [])), cq_bool(s["hash_same"]))
     return "(%s, %s)" % (inp, obs)
 
@@ -213,6 +240,10 @@ def classify(case, out):
         t.append("sql-out-only")
     if any(n >= 100000 for n in ns):
         t.append("sql-large")
+    if case.get("threshold"):
+        t.append("sql-threshold")
+    if any(n > 4000 for n in ns):
+        t.append("sql-multi-chunk")
     if s.get("notes"):
         t.append("sql-notes")
     return t
@@ -267,7 +298,9 @@ def match_known(finding, case, out):
         d = len(set(vals))
         bad_in = s["distinct_in"] == 999999
         bad_out = s["distinct_out"] == 999999
-        ok_rest = (s["read_in"] and s["read_out"] and s["hash_same"] and s["groups_in"] == d and s["groups_out"] == d
+        ok_rest = (s["read_in"] and s["read_out"] and s["read_sel"] and s["read_upd"] and s["json_full"] and s["hash_same"]
+                   and s["order_in"] == s["order_sel"] == s["order_upd"] and s["distinct_sel"] == d and s["distinct_upd"] == d
+                   and s["groups_in"] == d and s["groups_out"] == d
                    and (bad_in or s["distinct_in"] == d) and (bad_out or s["distinct_out"] == d) and s["order_in"] == s["order_out"]
                    and s["join"] == sum(1 for a in vals for b in vals if a == b))
         return ok_rest and (bad_in or bad_out)
@@ -280,7 +313,9 @@ def match_known(finding, case, out):
         want = sum(1 for a in vals for b in vals if a == b)
         # pairs whose left side (tin) is inline while the right side (tout) was forced out of band
         mixed = sum(1 for a in vals for b in vals if a == b and 22 <= len(a) <= 2047)
-        ok_rest = (s["read_in"] and s["read_out"] and s["hash_same"] and s["groups_in"] == d and s["groups_out"] == d
+        ok_rest = (s["read_in"] and s["read_out"] and s["read_sel"] and s["read_upd"] and s["json_full"] and s["hash_same"]
+                   and s["order_in"] == s["order_sel"] == s["order_upd"] and s["distinct_sel"] == d and s["distinct_upd"] == d
+                   and s["groups_in"] == d and s["groups_out"] == d
                    and s["distinct_in"] == d and s["distinct_out"] == d and s["order_in"] == s["order_out"])
         return ok_rest and mixed > 0 and want - mixed <= s["join"] < want
     return False
